@@ -48,7 +48,13 @@ VARIANTS = [
     ("host-bits-only-v4", F, ["C04", "C19"], [(NC, "            preserve_suffix_v6=args.preserve_host_bits,\n", "")]),
     ("skipped-returns-str-ip", F, ["C05", "C12"], [(IP, '        logging.debug("Should not anonymize %s, skipping", ip)\n        return match', '        logging.debug("Should not anonymize %s, skipping", ip)\n        return str(ip)')]),
     ("gate-all-instead-of-any", F, ["C05"], [(IP, "self._is_mask(ip_int) or any([ip in n for n in self._preserve_addresses])", "self._is_mask(ip_int) or all([ip in n for n in self._preserve_addresses])")]),
-    ("preserved-networks-not-pinned", F, ["C05", "C01"], [(IP, "            preserve_prefixes.extend(preserve_addresses)\n", "")]),
+    ("preserved-networks-not-pinned", F, ["C05", "C01"], [(IP, "            preserve_prefixes = list(preserve_prefixes) + list(preserve_addresses)\n", "")]),
+    ("prefix-list-extended-in-place", F, ["C13", "C03", "C15"], [(IP, "            preserve_prefixes = list(preserve_prefixes) + list(preserve_addresses)\n", "            preserve_prefixes.extend(preserve_addresses)\n")]),
+    ("prefix-list-iadd-in-place", F, ["C13", "C03"], [(IP, "            preserve_prefixes = list(preserve_prefixes) + list(preserve_addresses)\n", "            preserve_prefixes += list(preserve_addresses)\n")]),
+    ("prefix-list-copy-then-extend", S, None, [(IP, "            preserve_prefixes = list(preserve_prefixes) + list(preserve_addresses)\n", "            preserve_prefixes = list(preserve_prefixes)\n            preserve_prefixes.extend(preserve_addresses)\n")]),
+    ("prefix-list-slice-copy", S, None, [(IP, "            preserve_prefixes = list(preserve_prefixes) + list(preserve_addresses)\n", "            preserve_prefixes = preserve_prefixes[:] + list(preserve_addresses)\n")]),
+    ("default-prefix-list-shared-readonly", S, None, [(IP, "            preserve_prefixes = list(self.DEFAULT_PRESERVED_PREFIXES)\n", "            preserve_prefixes = self.DEFAULT_PRESERVED_PREFIXES\n")]),
+    ("reserved-set-updated-in-place", F, ["C15", "C13"], [(SI, "        self.reserved_words = {w.lower() for w in reserved_words}\n", "        self.reserved_words = reserved_words\n        self.reserved_words |= {w.lower() for w in reserved_words}\n")]),
     ("private-merged-only-when-absent", F, ["C05", "C19"], [(NC, "addrs if preserve_addresses is None else (preserve_addresses + addrs)", "addrs if preserve_addresses is None else preserve_addresses")]),
     ("dump-before-loop-filter-ge", F, ["C17"], [(IP, "if len(bits) == self.length", "if len(bits) >= self.length - 1")]),
     ("dump-only-v4", F, ["C17"], [(AF, "            file_anonymizer.anonymizer6.dump_to_file(f_out)\n", "")]),
